@@ -213,7 +213,12 @@ func c19OddKeys() (names []string, keys [][]byte) {
 	k[0], k[4] = 1, 0xff
 	k[5], k[6], k[7] = 0xff, 0xff, 0xff
 	k[1], k[2], k[3] = 0, 0, 0
-	add("32-bit-lanes-sum-to-zero", func() []byte { x := make([]byte, 32); x[0] = 1; x[4], x[5], x[6], x[7] = 0xff, 0xff, 0xff, 0xff; return x }())
+	add("32-bit-lanes-sum-to-zero", func() []byte {
+		x := make([]byte, 32)
+		x[0] = 1
+		x[4], x[5], x[6], x[7] = 0xff, 0xff, 0xff, 0xff
+		return x
+	}())
 	add("bytes-sum-to-zero", func() []byte { x := make([]byte, 32); x[0], x[1] = 1, 0xff; return x }())
 	add("two-equal-halves", append(bytes.Repeat([]byte{0xa5, 0x01}, 8), bytes.Repeat([]byte{0xa5, 0x01}, 8)...)) // XOR of the halves is zero
 	add("four-equal-lanes", bytes.Repeat([]byte{1, 2, 3, 4, 5, 6, 7, 8}, 4))
